@@ -7,9 +7,10 @@
     the accessors), src/fs.rs ([FileType], [Permissions]), src/process.rs ([WaitInfo]),
     src/fd.rs ([from_raw], [fd], [kind]), src/net/option.rs ([init]s).  No proofs here.
 
-    Definitions ending in [_fixed] model the code after proposed_fix_h9.diff /
-    proposed_fix_h22.diff; the ones wired into the correspondence ([run_c13case]) are the code
-    as it is in /repo. *)
+    H9 (timestamps before 1970), H21 (socket fallbacks on direct descriptors) and H22
+    (WaitInfo::status) are repaired in /repo: the definitions ending in [_fixed] (and
+    [fallback_gen true]) are the code as it is now and are the ones wired into the correspondence
+    ([run_c13case_fixed]); the others are kept for the refutation lemmas. *)
 From A10 Require Import Base.Word Gen.Consts Model.Encode.
 
 Open Scope Z_scope.
@@ -172,7 +173,7 @@ Definition timestamp (sec nsec : Z) : option systime :=
   | Some dur => if sec <? 0 then st_sub EPOCH dur else st_add EPOCH dur
   end.
 
-(** After proposed_fix_h9.diff:
+(** After the repair of H9 (47b5584):
     [let nanos = Duration::new(0, ts.tv_nsec);
      if negative { UNIX_EPOCH - Duration::new(ts.tv_sec.unsigned_abs(), 0) + nanos }
      else { UNIX_EPOCH + Duration::new(ts.tv_sec as u64, 0) + nanos }] *)
@@ -230,7 +231,7 @@ Definition view_of_raw (w : Z) : status_view :=
 (** [WaitInfo::status()] as it is: [ExitStatus::from_raw(si_status)]. *)
 Definition wait_status (si_code si_status : Z) : status_view := view_of_raw si_status.
 
-(** After proposed_fix_h22.diff: the wait-status word is rebuilt from [si_code]. *)
+(** After the repair of H22 (b6a8da3): the wait-status word is rebuilt from [si_code]. *)
 Definition wait_raw_fixed (si_code si_status : Z) : Z :=
   if si_code =? CLD_EXITED then Z.shiftl (Z.land si_status 255) 8
   else if si_code =? CLD_KILLED then Z.land si_status 127
